@@ -231,7 +231,8 @@ theorem deliver_side {U : List Block} {c : Chain} (w : TreeWF U c) {path : List 
       (commitBlock (accepted c b p) b h).2 = Outcome.moveFailed) ∧
     (∀ t, getNode c c.tip = some t → W c p + (difficulty b.bits).val ≤ W c t →
       (commitBlock (accepted c b p) b h).1.tip = c.tip) ∧
-    DeliveryComplete U c b (commitBlock (accepted c b p) b h) ∧ NodesFrom c b (commitBlock (accepted c b p) b h).1 := by
+    DeliveryComplete U c b (commitBlock (accepted c b p) b h) ∧ NodesFrom c b (commitBlock (accepted c b p) b h).1 ∧
+    (∀ n', getNode (commitBlock (accepted c b p) b h).1 b.id = some n' → n'.txCount = b.txs.length) := by
   have hns : alookup b.id c.store = none := by
     cases hh : alookup b.id c.store with
     | none => rfl
@@ -282,7 +283,8 @@ theorem deliver_side {U : List Block} {c : Chain} (w : TreeWF U c) {path : List 
   | false =>
     simp only [Bool.false_eq_true, if_false]
     refine ⟨⟨w1, ⟨path, hp1, hx1⟩, ?_⟩, rfl, (fun s hs => by cases hs), Or.inl rfl, fun _ _ _ => rfl,
-      ⟨hlost1, fun hnone => by rw [dlv_new sd] at hnone; cases hnone⟩, hfrom1⟩
+      ⟨hlost1, fun hnone => by rw [dlv_new sd] at hnone; cases hnone⟩, hfrom1,
+      fun n' hn' => by rw [dlv_new sd] at hn'; cases hn'; rfl⟩
     refine maxW_keep w hb hp sd hm rfl ?_
     intro t2 ht2
     rw [ht'] at ht2; cases ht2
@@ -304,7 +306,10 @@ theorem deliver_side {U : List Block} {c : Chain} (w : TreeWF U c) {path : List 
       · exact Or.inl ⟨e1, k2.trans e2⟩
       · exact Or.inr ⟨n, e1, k2.trans e2⟩
     refine ⟨⟨g2, ⟨path2, g3, g6⟩, ?_⟩, g4, (fun s hs => by split at hs <;> cases hs), ?_, ?_,
-      ⟨hlost1.trans g7', fun hnone => Or.inr (Or.inr (g7' b.id (by rw [dlv_new sd]; rfl) hnone))⟩, hfrom2⟩
+      ⟨hlost1.trans g7', fun hnone => Or.inr (Or.inr (g7' b.id (by rw [dlv_new sd]; rfl) hnone))⟩, hfrom2,
+      fun n' hn' => by
+        obtain ⟨n1, k1, k2⟩ := g8 b.id n' hn'
+        rw [dlv_new sd] at k1; cases k1; exact k2⟩
     rotate_left
     · by_cases hc2 : c2.tip = b.id
       · exact Or.inr (Or.inl hc2)
@@ -383,7 +388,8 @@ theorem deliver_tip {U : List Block} {c : Chain} (w : TreeWF U c) {path : List P
     ((commitBlock (accepted c b t) b (path.length + 1)).1.tip = c.tip ∨
       (commitBlock (accepted c b t) b (path.length + 1)).1.tip = b.id) ∧
     DeliveryComplete U c b (commitBlock (accepted c b t) b (path.length + 1)) ∧
-    NodesFrom c b (commitBlock (accepted c b t) b (path.length + 1)).1 := by
+    NodesFrom c b (commitBlock (accepted c b t) b (path.length + 1)).1 ∧
+    (∀ n', getNode (commitBlock (accepted c b t) b (path.length + 1)).1 b.id = some n' → n'.txCount = b.txs.length) := by
   have htd : HasData c b.parent t := by rw [← htip]; exact tip_has_data w hpath ht
   rw [htip] at ht
   have hp := ht
@@ -449,7 +455,8 @@ theorem deliver_tip {U : List Block} {c : Chain} (w : TreeWF U c) {path : List P
         exact Or.inr ⟨n, g1, g2⟩
     refine ⟨⟨w1, ⟨_, ⟨hcp, newNode b t, dlv_new sd, by simp only [List.length_cons]; show t.height + 1 = _; omega⟩, hx1⟩, ?_⟩,
       hrt, (fun s hs => by cases hs), Or.inr rfl,
-      ⟨hlost1, fun hnone => by rw [dlv_new sd] at hnone; cases hnone⟩, hfrom1⟩
+      ⟨hlost1, fun hnone => by rw [dlv_new sd] at hnone; cases hnone⟩, hfrom1,
+      fun n' hn' => by rw [dlv_new sd] at hn'; cases hn'; rfl⟩
     refine maxW_new w hb hp sd hm rfl ?_
     intro t2 ht2
     have hw := dlv_W_new w w1 hU hb hp sd
@@ -474,7 +481,8 @@ theorem deliver_tip {U : List Block} {c : Chain} (w : TreeWF U c) {path : List P
         hx.of_store_eq (c' := rejectedChain (accepted c b t) b) rfl⟩, ?_⟩, hr,
       (fun s hs => by cases hs), Or.inl htip.symm,
       ⟨Lost.of_getNode hg, fun _ => Or.inr (Or.inr ⟨b, hbU, UAnc.refl, hinv⟩)⟩,
-      fun x n' hn' => Or.inr ⟨n', by rw [← hg]; exact hn', rfl⟩⟩
+      (fun x n' hn' => Or.inr ⟨n', by rw [← hg]; exact hn', rfl⟩),
+      fun n' hn' => by rw [hg, hb] at hn'; cases hn'⟩
     obtain ⟨t0, ht0, hmax⟩ := hm
     refine ⟨t0, by show getNode _ b.parent = some t0; rw [hg, ← htip]; exact ht0, fun x n hn hd => ?_⟩
     rw [W_same hr hg, W_same hr hg]
@@ -487,7 +495,8 @@ theorem deliver_inv {U : List Block} {c : Chain} (hi : Inv U c) (hU : BlockTree 
     (hpd : ∀ p, getNode c b.parent = some p → HasData c b.parent p) :
     Inv U (deliver c b).1 ∧ (deliver c b).1.root = c.root ∧ (∀ s, (deliver c b).2 ≠ Outcome.panic s) ∧
     ((deliver c b).1.tip = c.tip ∨ (deliver c b).1.tip = b.id ∨ (deliver c b).2 = Outcome.moveFailed) ∧
-    DeliveryComplete U c b (deliver c b) ∧ NodesFrom c b (deliver c b).1 := by
+    DeliveryComplete U c b (deliver c b) ∧ NodesFrom c b (deliver c b).1 ∧
+    ((deliver c b).2.admitted = true → ∀ n', getNode (deliver c b).1 b.id = some n' → n'.txCount = b.txs.length) := by
   obtain ⟨w, ⟨path, hpo, hx⟩, hm⟩ := hi
   obtain ⟨hpath, t, ht, hth⟩ := hpo
   have same : Lost U c.root c c := Lost.of_getNode (fun _ => rfl)
@@ -496,29 +505,29 @@ theorem deliver_inv {U : List Block} {c : Chain} (hi : Inv U c) (hU : BlockTree 
   | some n0 =>
     have : deliver c b = (c, Outcome.dup) := by unfold deliver; simp [hb]
     rw [this]; exact ⟨⟨w, ⟨path, ⟨hpath, t, ht, hth⟩, hx⟩, hm⟩, rfl, (fun s hs => by cases hs), Or.inl rfl,
-      ⟨same, fun hnone => by rw [hb] at hnone; cases hnone⟩, sameN⟩
+      ⟨same, fun hnone => by rw [hb] at hnone; cases hnone⟩, sameN, fun ha => by cases ha⟩
   | none =>
     cases hp : getNode c b.parent with
     | none =>
       have : deliver c b = (c, Outcome.later) := by unfold deliver; simp [hb, hp]
       rw [this]; exact ⟨⟨w, ⟨path, ⟨hpath, t, ht, hth⟩, hx⟩, hm⟩, rfl, (fun s hs => by cases hs), Or.inl rfl,
-        ⟨same, fun _ => Or.inl rfl⟩, sameN⟩
+        ⟨same, fun _ => Or.inl rfl⟩, sameN, fun ha => by cases ha⟩
     | some p =>
       cases hdeep : (p.id != t.id && decide (t.height ≥ p.height + 1 + MovingCheckpointDepth)) with
       | true =>
         have : deliver c b = (c, Outcome.tooDeep) := by
           unfold deliver deliverAt; simp only [hb, Option.isSome_none, Bool.false_eq_true, if_false, hp, ht, hdeep, if_true]
         rw [this]; exact ⟨⟨w, ⟨path, ⟨hpath, t, ht, hth⟩, hx⟩, hm⟩, rfl, (fun s hs => by cases hs), Or.inl rfl,
-          ⟨same, fun _ => Or.inr (Or.inl rfl)⟩, sameN⟩
+          ⟨same, fun _ => Or.inr (Or.inl rfl)⟩, sameN, fun ha => by cases ha⟩
       | false =>
         rw [deliver_eq c b p t hb hp ht hdeep]
         by_cases htip : c.tip = b.parent
         · rw [← htip, ht] at hp; cases hp
           rw [hth]
-          obtain ⟨h1, h2, h3, h4, h5, h6⟩ := deliver_tip w hpath hx t ht hth hm hU b hbU hb htip
-          exact ⟨h1, h2, h3, h4.elim Or.inl (fun h => Or.inr (Or.inl h)), h5, h6⟩
-        · obtain ⟨h1, h2, h3, h4, _, h6, h7⟩ := deliver_side w ⟨hpath, t, ht, hth⟩ hx hm hU b hbU p hb hp (hpd p hp) htip (p.height + 1)
-          exact ⟨h1, h2, h3, h4, h6, h7⟩
+          obtain ⟨h1, h2, h3, h4, h5, h6, h7⟩ := deliver_tip w hpath hx t ht hth hm hU b hbU hb htip
+          exact ⟨h1, h2, h3, h4.elim Or.inl (fun h => Or.inr (Or.inl h)), h5, h6, fun _ => h7⟩
+        · obtain ⟨h1, h2, h3, h4, _, h6, h7, h8⟩ := deliver_side w ⟨hpath, t, ht, hth⟩ hx hm hU b hbU p hb hp (hpd p hp) htip (p.height + 1)
+          exact ⟨h1, h2, h3, h4, h6, h7, fun _ => h8⟩
 
 /-- the initial state satisfies the invariant -/
 theorem init_inv (U : List Block) (r bits : Nat) (hbits : bits % 0x1000000 ≠ 0) : Inv U (ChainTree.init r bits) := by
@@ -586,7 +595,7 @@ theorem deliver_all_inv {U : List Block} (ds : List Block) : ∀ (c : Chain), In
   | cons b bs ih =>
     intro c hi ha hU hin
     obtain ⟨h1, h2, _, _, _, h6⟩ := deliver_inv hi hU b (hin b List.mem_cons_self) (fun p hp => ha _ p hp)
-    obtain ⟨h3, h4⟩ := ih (deliver c b).1 h1 (ha.deliver hU b (hin b List.mem_cons_self) h2 h6) (by rw [h2]; exact hU)
+    obtain ⟨h3, h4⟩ := ih (deliver c b).1 h1 (ha.deliver hU b (hin b List.mem_cons_self) h2 h6.1) (by rw [h2]; exact hU)
       (fun x hx => hin x (List.mem_cons_of_mem _ hx))
     exact ⟨h3, h4.trans h2⟩
 
@@ -643,7 +652,7 @@ theorem deliverG_all {U : List Block} (ds : List Block) : ∀ (s : Chain × List
     obtain ⟨h1, h2, _, _, _, h6⟩ := deliver_inv hi hU b (hin b List.mem_cons_self) hpd
     have hc1 := deliverG_complete hi hU b (hin b List.mem_cons_self) hpd E hc
     have hr : (deliverG (c, E) b).1.root = c.root := h2
-    have ha1 : AllData (deliverG (c, E) b).1 := AllData.deliver (c := c) ha hU b (hin b List.mem_cons_self) h2 h6
+    have ha1 : AllData (deliverG (c, E) b).1 := AllData.deliver (c := c) ha hU b (hin b List.mem_cons_self) h2 h6.1
     obtain ⟨h3, h4, h5, h7⟩ := ih (deliverG (c, E) b) h1 ha1 (by rw [hr]; exact hU) (fun x hx => hin x (List.mem_cons_of_mem _ hx))
       (by rw [hr]; exact hc1)
     simp only [List.foldl_cons]
